@@ -179,6 +179,14 @@ class SymmetryEngine:
                 all_ok &= g
         if found and all_ok:
             C.SYMMETRIC_CALLS['get_tau'] = [(1, 0, 3, 2, 4, 5)]
+        # a helper whose symmetry lemma is open only because its shape was not recognised (no clause of the lemma is violated):
+        # what depends on the lemma is then open too, not refuted
+        self.undecided_helpers: Set[str] = set()
+        for nm in ('dist_at_t', 'get_tau'):
+            mine = [o for o in self.helper_obs if o.title.split(' ')[0].split('(')[0].split(':')[0] == nm or o.title.startswith(nm)]
+            if nm not in C.SYMMETRIC_CALLS and mine and not any(o.status == 'violation' for o in mine) \
+                    and any(o.status == 'inconclusive' for o in mine):
+                self.undecided_helpers.add(nm)
 
     def kernel_obligations(self, fi: FuncInfo, mode: str, rule: str, neg_names: Optional[Set[str]] = None,
                            return_kind: str = 'same') -> List[Ob]:
@@ -223,6 +231,12 @@ class SymmetryEngine:
                 if m.key() in seen:
                     continue
                 seen.add(m.key())
+                dep = [h for h in getattr(self, 'undecided_helpers', ()) if f"{h}(" in str(m.form_a) + str(m.form_b)]
+                if dep:
+                    obs.append(inconclusive(rule, t + f" [{tag}]: {m.what}", f"{m.loc_a} / {m.loc_b}",
+                                            f"depends on the symmetry lemma of `{dep[0]}`, which is undecided on this tree (its shape is "
+                                            f"not recognised)", construct=f"{fn}::sigma::{tag}::{m.ctx}"))
+                    continue
                 obs.append(violation(rule, t + f" [{tag}]: {m.what}", f"{m.loc_a} / {m.loc_b}",
                                      key=f"{fn}::sigma::{tag}::{m.kind}::{m.what}::{m.form_a}::{m.form_b}",
                                      detail=f"P:        {m.form_a}\nsigma(P): {m.form_b}\nin: {m.ctx}",
